@@ -99,6 +99,10 @@ def run(ctx):
     # (b) LFR depends only on the confusion-matrix cell of each 0/1 pair
     cellenc = {"bool": lambda a, b, t: (bool(a), bool(b)), "np.int64": lambda a, b, t: (np.int64(a), np.int64(b)),
                "1-d arrays": lambda a, b, t: (np.array([a]), np.array([b])), "lists": lambda a, b, t: ([a], [b]),
+               # 0/1 labels as stored in narrow / unsigned columns (uint8 masks, int8 flags)
+               "uint8 scalars": lambda a, b, t: (np.uint8(a), np.uint8(b)), "uint16 in lists": lambda a, b, t: ([np.uint16(a)], [np.uint16(b)]),
+               "uint32 arrays": lambda a, b, t: (np.array([a], dtype=np.uint32), np.array([b], dtype=np.uint32)),
+               "int8 flags": lambda a, b, t: (np.int8(a), np.int8(b)),
                "categorical series": lambda a, b, t: (pd.Series([a], dtype="category"), pd.Series(pd.Categorical([b], categories=[1, 0])))}
     tl = []
     for i in range(3 if q else 20):
